@@ -32,6 +32,7 @@ import (
 type c08Input struct {
 	class string
 	data  []byte
+	raw   bool // stream endpoints: write to a plain TCP connection that is then left open
 }
 
 // c08Endpoint is one receiving loop under test.
@@ -40,7 +41,7 @@ type c08Endpoint struct {
 	name     string
 	kinds    string // target -kinds
 	inputs   func(r *ev.Run, rng *rand.Rand, e *c08Env) []c08Input
-	send     func(e *c08Env, b []byte) error
+	send     func(e *c08Env, in c08Input) error
 	sentinel func(e *c08Env) bool // true = answered
 }
 
@@ -53,6 +54,7 @@ type c08Env struct {
 	nts      ntske.Data
 	logf     *os.File
 	rssKill  atomic.Bool
+	ntsEpoch int
 }
 
 func (e *c08Env) startTarget(kinds string) error {
@@ -62,6 +64,13 @@ func (e *c08Env) startTarget(kinds string) error {
 	}
 	e.tgt = t
 	e.rssKill.Store(false)
+	if strings.Contains(kinds, "ntske") {
+		// cookies are sealed under this process's server key: fetch fresh ones after every (re)start
+		if d, err := fetchNTS(e.srv); err == nil {
+			e.nts = d
+			e.ntsEpoch++
+		}
+	}
 	go func(t *Target) { // memory watchdog
 		for t.Alive() {
 			if t.RSSBytes() > 3<<30 {
@@ -81,8 +90,15 @@ func c08Sig(frame string) string {
 }
 
 // c08Drive sends the inputs of one endpoint in batches, each followed by a sentinel.
-func c08Drive(r *ev.Run, ep *c08Endpoint, e *c08Env, inputs []c08Input) {
+func c08Drive(r *ev.Run, ep *c08Endpoint, e *c08Env, inputs []c08Input, regen func() []c08Input) {
 	skip := map[string]bool{}
+	epoch := e.ntsEpoch
+	refresh := func() {
+		if e.ntsEpoch != epoch && regen != nil {
+			inputs = regen() // same seeded generator, key material of the new process
+			epoch = e.ntsEpoch
+		}
+	}
 	report := func(in c08Input, batch []c08Input) {
 		w := map[string]any{"endpoint": ep.name, "class": in.class, "input": ev.Hex(in.data), "length": len(in.data)}
 		switch {
@@ -127,6 +143,7 @@ func c08Drive(r *ev.Run, ep *c08Endpoint, e *c08Env, inputs []c08Input) {
 				return
 			}
 		}
+		refresh()
 		var grp []c08Input
 		for i < len(inputs) && len(grp) < batch {
 			if !skip[inputs[i].class] {
@@ -139,7 +156,7 @@ func c08Drive(r *ev.Run, ep *c08Endpoint, e *c08Env, inputs []c08Input) {
 		}
 		for _, in := range grp {
 			fmt.Fprintf(e.logf, "%s %s %s\n", ep.name, in.class, ev.Hex(in.data))
-			_ = ep.send(e, in.data)
+			_ = ep.send(e, in)
 		}
 		r.Eval(int64(len(grp)))
 		if sentinelOK() {
@@ -157,11 +174,28 @@ func c08Drive(r *ev.Run, ep *c08Endpoint, e *c08Env, inputs []c08Input) {
 			return
 		}
 		found := false
+		if e.ntsEpoch != epoch && regen != nil {
+			// rebuild this batch with the new process's key material (same positions of the same generator)
+			fresh := regen()
+			epoch = e.ntsEpoch
+			if len(fresh) == len(inputs) {
+				inputs = fresh
+				var g2 []c08Input
+				for j := i - 1; j >= 0 && len(g2) < len(grp); j-- {
+					if !skip[inputs[j].class] {
+						g2 = append([]c08Input{inputs[j]}, g2...)
+					}
+				}
+				if len(g2) == len(grp) {
+					grp = g2
+				}
+			}
+		}
 		for _, in := range grp {
 			if skip[in.class] {
 				continue
 			}
-			_ = ep.send(e, in.data)
+			_ = ep.send(e, in)
 			if !sentinelOK() {
 				report(in, grp)
 				found = true
@@ -208,7 +242,7 @@ func ntsFields(b []byte) (offs []int) {
 
 func c08NTPInputs(r *ev.Run, rng *rand.Rand, e *c08Env) []c08Input {
 	var in []c08Input
-	add := func(class string, b []byte) { in = append(in, c08Input{class, b}) }
+	add := func(class string, b []byte) { in = append(in, c08Input{class: class, data: b}) }
 	step := r.Pick(7, 1)
 	for l := 0; l <= 2049; l += step {
 		b := randBytes(rng, l)
@@ -308,6 +342,15 @@ func c08NTPInputs(r *ev.Run, rng *rand.Rand, e *c08Env) []c08Input {
 		}
 		add("nts-valid-cookie-bad-authenticator", b)
 	}
+	// correctly authenticated requests of unusual shape (built by the harness's own encoder)
+	for _, ul := range []int{0, 1, 4, 16, 28, 31, 32, 33, 48, 64, 200, 500, 900, 1500} {
+		for _, np := range []int{0, 1, 7, 8, 12} {
+			if 48+ul+(np+1)*132+60 > 2040 {
+				continue
+			}
+			add("nts-authenticated-unusual-shape", peer.NTSRequest(peer.NTPRequest(peer.UniqueTime64()), randBytes(rng, ul), e.nts.Cookie[0], np, e.nts.C2sKey))
+		}
+	}
 	{ // many minimal fields
 		b := append([]byte{}, hdr...)
 		for len(b)+4 <= 2048 {
@@ -350,7 +393,7 @@ func c08SCIONBase(e *c08Env, rng *rand.Rand, kind int, dstPort uint16, payload [
 func c08SCIONInputs(dstPort uint16) func(r *ev.Run, rng *rand.Rand, e *c08Env) []c08Input {
 	return func(r *ev.Run, rng *rand.Rand, e *c08Env) []c08Input {
 		var in []c08Input
-		add := func(class string, b []byte) { in = append(in, c08Input{class, b}) }
+		add := func(class string, b []byte) { in = append(in, c08Input{class: class, data: b}) }
 		ser := func(p *peer.SCIONPkt) []byte {
 			b, err := p.Serialize()
 			if err != nil {
@@ -527,7 +570,7 @@ func c08SCIONInputs(dstPort uint16) func(r *ev.Run, rng *rand.Rand, e *c08Env) [
 
 func c08CSPTPInputs(r *ev.Run, rng *rand.Rand, e *c08Env) []c08Input {
 	var in []c08Input
-	add := func(class string, b []byte) { in = append(in, c08Input{class, b}) }
+	add := func(class string, b []byte) { in = append(in, c08Input{class: class, data: b}) }
 	for l := 0; l <= 120; l++ {
 		add("csptp-random-of-each-length", randBytes(rng, l))
 	}
@@ -569,7 +612,7 @@ func c08CSPTPInputs(r *ev.Run, rng *rand.Rand, e *c08Env) []c08Input {
 // NTS-KE: byte streams written to a TLS connection
 func c08NTSKEInputs(r *ev.Run, rng *rand.Rand, e *c08Env) []c08Input {
 	var in []c08Input
-	add := func(class string, b []byte) { in = append(in, c08Input{class, b}) }
+	add := func(class string, b []byte) { in = append(in, c08Input{class: class, data: b}) }
 	rec := func(t uint16, body []byte) []byte {
 		b := make([]byte, 4+len(body))
 		binary.BigEndian.PutUint16(b, t)
@@ -602,6 +645,10 @@ func c08NTSKEInputs(r *ev.Run, rng *rand.Rand, e *c08Env) []c08Input {
 	for k := 0; k < r.Pick(100, 5000); k++ {
 		add("ntske-random", randBytes(rng, rng.IntN(200)))
 	}
+	// peers that never complete the TLS handshake and keep the TCP connection open
+	for _, b := range [][]byte{nil, {0x16}, {0x16, 0x03, 0x01}, {0x16, 0x03, 0x01, 0x02, 0x00, 0x01}, randBytes(rng, 5), randBytes(rng, 60), []byte("GET / HTTP/1.0\r\n\r\n")} {
+		in = append(in, c08Input{class: "ntske-stalled-tls-handshake", data: b, raw: true})
+	}
 	{
 		var b []byte
 		for i := 0; i < 2000; i++ {
@@ -618,8 +665,22 @@ var (
 )
 
 // c08SendTLS opens a TLS connection per input (up to 16 at a time) and writes the byte stream.
-func c08SendTLS(alpn string) func(e *c08Env, b []byte) error {
-	return func(e *c08Env, b []byte) error {
+// Raw inputs go over a plain TCP connection that stays open (a peer that never completes the
+// handshake) until the endpoint is done.
+var c08Held []net.Conn
+
+func c08SendTLS(alpn string) func(e *c08Env, in c08Input) error {
+	return func(e *c08Env, in c08Input) error {
+		b := in.data
+		if in.raw {
+			c, err := net.DialTimeout("tcp", netip.AddrPortFrom(e.srv, ntske.ServerPortIP).String(), 3*time.Second)
+			if err != nil {
+				return err
+			}
+			_, _ = c.Write(b)
+			c08Held = append(c08Held, c)
+			return nil
+		}
 		c08TLSWG.Add(1)
 		c08TLSSem <- struct{}{}
 		go func() {
@@ -673,33 +734,23 @@ func init() {
 			r.Inconclusive(err.Error())
 			r.Finish("", 0)
 		}
-		// NTS material from a real key exchange (one short-lived target)
-		if t, err := StartTarget("plain", "-ip", e.srv.String(), "-kinds", "ntske"); err == nil {
-			e.nts, err = fetchNTS(e.srv)
-			t.Kill()
-			if err != nil {
-				r.Inconclusive("key exchange failed: " + err.Error())
-			}
-		} else {
-			r.Inconclusive("target: " + err.Error())
-		}
 		scionWrap := func(port uint16) func(e *c08Env, p []byte) []byte {
 			return func(e *c08Env, p []byte) []byte {
 				b, _ := (&peer.SCIONPkt{SrcIA: c08LIA, DstIA: c08LIA, SrcHost: e.cli, DstHost: e.srv, SrcPort: e.uc.Local().Port(), DstPort: 10123, Payload: p}).Serialize()
 				return b
 			}
 		}
-		udpTo := func(ip func(e *c08Env) netip.Addr, port uint16) func(e *c08Env, b []byte) error {
-			return func(e *c08Env, b []byte) error { return e.uc.Send(netip.AddrPortFrom(ip(e), port), b) }
+		udpTo := func(ip func(e *c08Env) netip.Addr, port uint16) func(e *c08Env, in c08Input) error {
+			return func(e *c08Env, in c08Input) error { return e.uc.Send(netip.AddrPortFrom(ip(e), port), in.data) }
 		}
 		srvIP := func(e *c08Env) netip.Addr { return e.srv }
 		srv2IP := func(e *c08Env) netip.Addr { return e.srv2 }
 		eps := []*c08Endpoint{
 			{loop: "server.runIPServer", name: "ntp-ip-listener", kinds: "ip,ntske", inputs: c08NTPInputs, send: udpTo(srvIP, 123),
 				sentinel: c08NTPSentinel(func(e *c08Env) netip.AddrPort { return netip.AddrPortFrom(e.srv, 123) }, func(_ *c08Env, p []byte) []byte { return p }, func(b []byte) []byte { return b })},
-			{loop: "server.runSCIONServer", name: "scion-listener(service port)", kinds: "scion", inputs: c08SCIONInputs(10123), send: udpTo(srvIP, 10123),
+			{loop: "server.runSCIONServer", name: "scion-listener(service port)", kinds: "scion,ntske", inputs: c08SCIONInputs(10123), send: udpTo(srvIP, 10123),
 				sentinel: c08NTPSentinel(func(e *c08Env) netip.AddrPort { return netip.AddrPortFrom(e.srv, 10123) }, scionWrap(10123), scionUnwrap)},
-			{loop: "server.runSCIONServer", name: "scion-listener(end-host port)", kinds: "scion", inputs: c08SCIONInputs(10123), send: udpTo(srvIP, 30041),
+			{loop: "server.runSCIONServer", name: "scion-listener(end-host port)", kinds: "scion,ntske", inputs: c08SCIONInputs(10123), send: udpTo(srvIP, 30041),
 				sentinel: c08NTPSentinel(func(e *c08Env) netip.AddrPort { return netip.AddrPortFrom(e.srv, 30041) }, scionWrap(10123), scionUnwrap)},
 			{loop: "server.runSCIONServer", name: "scion-dispatcher", kinds: "disp", inputs: c08SCIONInputs(40000), send: udpTo(srv2IP, 30041),
 				sentinel: func(e *c08Env) bool { // SCMP echo: the dispatcher answers it itself
@@ -751,7 +802,19 @@ func init() {
 				}
 				inputs = sel
 			}
-			c08Drive(r, ep, e, inputs)
+			c08Drive(r, ep, e, inputs, func() []c08Input {
+				in := ep.inputs(r, r.Rng("c08/"+ep.name), e)
+				if r.Only() != "" {
+					var sel []c08Input
+					for _, x := range in {
+						if x.class == r.Only() {
+							sel = append(sel, x)
+						}
+					}
+					return sel
+				}
+				return in
+			})
 			// census of the receiving loops: every goroutine that ran the loop at start must still run it
 			if ep.loop != "" && e.tgt.Alive() {
 				after := strings.Count(e.tgt.DumpFull(), ep.loop+"(")
